@@ -2,7 +2,9 @@
 
 cfg = {"comp": "flag"|"mailbox", "tx": 0..3, "rx": 0..3, "form": "none"|"txrx"|"delay",
        "topo": "same"|"two", "style": "plain"|"coro", "send": "always"|"guarded", "order": "obs_first"|"act_first",
-       "first": "prod"|"cons" (same context only: which side's code comes first)}
+       "first": "prod"|"cons" (same context only: which side's code comes first),
+       "uclear": bool (consumer additionally calls clear() without checking is_set(): on input force_clr in the plain
+                 style, unconditionally one clock after every receive in the coro style)}
 
 plain style (one decision per clock, no coroutine):
     producer: o_pclear <<= is_clear() ; if want_send [and is_clear()]: set()/send(payload) ; o_set pulse
@@ -38,7 +40,8 @@ def render(cfg) -> str:
     s = _HEAD
     s += "class Top(cohdl.Entity):\n"
     s += "    clk = Port.input(Bit)\n    want_send = Port.input(Bit)\n    want_recv = Port.input(Bit)\n"
-    s += "    payload = Port.input(Unsigned[3])\n"
+    s += "    payload = Port.input(Unsigned[3])\n    force_clr = Port.input(Bit)\n"
+    s += "    o_fclr = Port.output(Bit, default=False)\n"
     s += "    o_pclear = Port.output(Bit, default=False)\n    o_set = Port.output(Bit, default=False)\n"
     s += "    o_cset = Port.output(Bit, default=False)\n    o_clr = Port.output(Bit, default=False)\n"
     s += "    o_payload = Port.output(Unsigned[3], default=Null)\n\n"
@@ -69,6 +72,9 @@ def render(cfg) -> str:
         if mb:
             cons += "                self.o_payload <<= box.data()\n"
         cons += "                box.clear()\n                self.o_clr ^= True\n"
+        if cfg.get("uclear"):
+            # clear() NOT guarded by is_set(): documented as "no effect when it is already clear"
+            cons += "            if self.force_clr:\n                box.clear()\n                self.o_fclr ^= True\n"
         if late:
             cons += "            self.o_cset <<= box.is_set()\n"
         if cfg["topo"] == "same":
@@ -86,4 +92,7 @@ def render(cfg) -> str:
         else:
             s += "            await box.receive()\n"
         s += "            self.o_clr ^= True\n"
+        if cfg.get("uclear"):
+            # a second, unguarded clear in the clock after the receive (the flag is clear then: no effect)
+            s += "            await std.tick()\n            box.clear()\n            self.o_fclr ^= True\n"
     return s
